@@ -356,6 +356,13 @@ def translate_to_csp(
     return csp
 
 
+def _int_model_to_dict(m: Any) -> dict[str, int]:
+    """Integer-valued entries of a z3 model (the optimiser adds internal Boolean ones)."""
+    return {
+        d.name(): cast(Any, m[d]).as_long() for d in m.decls() if z3.is_int_value(m[d])
+    }
+
+
 def _convert_csp_to_z3(csp: list[FNode]) -> list:
     """Convert pysmt expressions to native z3 expressions."""
     pysmt_solver = Solver(name="z3")
@@ -385,7 +392,7 @@ def solve_and_get_model(
         s.add(*z3_csp)
         if s.check() == z3.sat:
             m = s.model()
-            return {d.name(): cast(Any, m[d]).as_long() for d in m.decls()}
+            return _int_model_to_dict(m)
         return None
 
     # Otherwise build an optimiser.
@@ -400,7 +407,7 @@ def solve_and_get_model(
     # Enumerate first Pareto-optimal model (suffices since *priority='pareto'*).
     if opt.check() == z3.sat:
         m = opt.model()
-        return {d.name(): cast(Any, m[d]).as_long() for d in m.decls()}
+        return _int_model_to_dict(m)
 
     return None
 
@@ -449,7 +456,7 @@ def solve_pareto_front(
     results: list[dict[str, int]] = []
     while opt.check() == z3.sat:
         m = opt.model()
-        results.append({d.name(): cast(Any, m[d]).as_long() for d in m.decls()})
+        results.append(_int_model_to_dict(m))
         if max_solutions is not None and len(results) >= max_solutions:
             break
 
